@@ -104,6 +104,7 @@ func ExecuteSubscription(p ExecuteParams) chan *Result {
 			return
 		}()
 
+		simYieldCtx(p.Context, "sub.fwd.start")
 		exeContext, err := buildExecutionContext(buildExecutionCtxParams{
 			Schema:        p.Schema,
 			Root:          p.Root,
@@ -206,6 +207,7 @@ func ExecuteSubscription(p ExecuteParams) chan *Result {
 		case chan interface{}:
 			sub := fieldResult.(chan interface{})
 			for {
+				simYield("sub.fwd.select")
 				select {
 				case <-p.Context.Done():
 					return
